@@ -1,4 +1,5 @@
 import GoguVerif.Theorems.C20
+import GoguVerif.Theorems.C20M
 open GoguVerif.Theorems.C20
 -- debounce
 #print axioms debounce_fire_ok
@@ -39,3 +40,11 @@ open GoguVerif.Theorems.C20
 #print axioms dmon_accepts_model
 -- the delay monitor accepts the model
 #print axioms lmon_accepts_model
+-- the throttle monitor accepts the model (Theorems/C20M.lean)
+#print axioms tmonStep_sync
+#print axioms tmon_accepts_model
+-- the delay monitor accepts the sorted log; the debounce kind's call-number translation
+#print axioms lonFired_accepts_perm
+#print axioms sortFires_perm
+#print axioms lmon_accepts_model_sorted
+#print axioms noOfPos_roundtrip
